@@ -213,6 +213,14 @@ def run(chk, scratch):
                 raise runner.Inconclusive("could not prepare saved assignments: " + pipeline.fail_text(r0))
             saves_src = os.path.join(d, "saving", pipeline.PREFIX, "aux")
             shutil.copytree(saves_src, os.path.join(d, "saves_clean"))
+        if not cfg.get("fresh_home") and not cfg.get("dirty") and cfg.get("annotated", True):
+            # the killed runs start with the annotation cache the monitored run leaves behind (conversion cached), so the monitored run that
+            # numbers the crash points must find the conversion cached as well: an unmonitored run of the same command line comes first
+            rw = runner.run_isoquant(args_for(cfg, d, os.path.join(d, "warm"), extra, saves=os.path.join(d, "saves_clean") if saves_src else None),
+                                     os.path.join(d, "home"), cwd=d if cfg.get("relative") else None)
+            if rw["rc"] != 0:
+                raise runner.Inconclusive("warm-up run failed: " + pipeline.fail_text(rw))
+            shutil.rmtree(os.path.join(d, "warm", pipeline.PREFIX), ignore_errors=True)
         # (killed runs that start without cached conversions are numbered by a monitored run that starts without them, too)
         r = runner.run_isoquant(args_for(cfg, d, clean, extra, saves=os.path.join(d, "saves_clean") if saves_src else None),
                                 os.path.join(d, "home_clean" if cfg.get("fresh_home") and cfg.get("dirty") else "home"), mon=["crash"],
